@@ -416,6 +416,11 @@ class Doc:
                 for v in vars(m).values():
                     if isinstance(v, Repeated):
                         self.parents[id(v)] = m
+        try:
+            from harness import health
+            health.prime(self.file)   # value / filtered views exist before the calls under test (reading is no edit)
+        except Exception:
+            pass
         # where the public comment calls are defined (patched for the duration of one API call)
         pts = {}
         for _path, m in self.nodes():
@@ -1352,6 +1357,15 @@ def run_document(ctx, prop: str, lines, crlf, final_nl, ops_seed, n_ops, witness
             if op[0].startswith('reclaim') and exc:
                 mon('C14', 'C14:unclaim-claim', f'{op[0]} on {op[1]}: claiming back what was just unclaimed raised '
                     f'{extra.get("exc_text")}', w)
+        try:
+            from harness import health
+            hp = health.problems(doc.file)
+        except Exception:
+            hp = []
+        if hp:
+            # claiming / unclaiming moved something it must not move: the tree is no longer a tree of its tokens, a cached
+            # view no longer is the filtered list, or positions no longer match the text
+            mon(prop, f'{prop}:health:{hp[0][0]}', f'after the calls {[o[0] for o in ops][:8]}: {hp[0][1]}', {'flag': flag, 'ops': ops})
         if rng.random() < 0.3:
             msg = readonly_sweep(doc, rng, budget=150)
             if msg:
@@ -1385,6 +1399,10 @@ def run_document(ctx, prop: str, lines, crlf, final_nl, ops_seed, n_ops, witness
                 ctx.count('hyp_idempotence_all_claimed_true' if allc else 'hyp_idempotence_all_claimed_false')
             elif p['op'] == 'claimer':
                 ctx.count('hyp_op_ok_claimer_evaluated')
+                if not p['exc']:
+                    # CommentsRun.placement_ok: entries behind the placeholder, no placeholder between the field and
+                    # the comments claimed in front / behind, on the token order the implementation reports
+                    ctx.count('hyp_placement_checked')
             elif p['op'] == 'attach':
                 ctx.count('hyp_attach_ok_evaluated')
         if doc.private_mismatch:
